@@ -112,6 +112,7 @@ fn c09_socket_case(case: &StreamCase) -> CaseReport {
 }
 
 pub fn c09_socket_phase(ctx: &Ctx, acc: &Accum) -> Option<i32> {
+    let ctx = &ctx.with_shrink(25);
     let n = ctx.by(6, 200);
     if let Some(f) = explore(ctx, acc, "l3-socket-segmentations", "stream", &c09_stream_strategy, n, ctx.workers, c09_socket_case) {
         report_violation(ctx, "stream_socket", &serde_json::to_value(&f.case).unwrap(), &f.fail);
@@ -150,6 +151,7 @@ fn big_pipe_strategy() -> BoxedStrategy<PipeCase> {
     let item = prop_oneof![
         3 => big_value_cmd().prop_map(PItem::Cmd),
         6 => c12::cmd_strategy().prop_map(PItem::Cmd),
+        2 => (any::<u8>(), any::<u8>(), prop_oneof![Just(0u8), Just(4u8)], prop_oneof![Just(0u8), 1u8..10]).prop_map(|(op, k, extras, vlen)| PItem::Unimpl { op, k, extras, vlen }),
         3 => (0usize..3, any::<bool>()).prop_map(|(k, wk)| PItem::Cmd(Cmd::new(if wk { Kind::GetK } else { Kind::Get }, frames::KEYS[k]))),
     ];
     (prop::collection::vec(item, 2..=16), 0u8..3, prop::collection::vec(any::<u16>(), 1..6), prop_oneof![Just(0u8), Just(2u8)])
@@ -158,6 +160,7 @@ fn big_pipe_strategy() -> BoxedStrategy<PipeCase> {
 }
 
 pub fn pipe_phase(ctx: &Ctx, acc: &Accum, prop: &'static str) -> Option<i32> {
+    let ctx = &ctx.with_shrink(25);
     let n = ctx.by(20, 300);
     if let Some(f) = explore(ctx, acc, "l3-socket-pipelines", "pipe", &big_pipe_strategy, n, ctx.workers, |c: &PipeCase| c12::run_case(c, prop)) {
         report_violation(ctx, "pipe", &serde_json::to_value(&f.case).unwrap(), &f.fail);
@@ -195,6 +198,7 @@ pub fn c10_memory_phase(ctx: &Ctx, acc: &Accum) -> Option<i32> {
         c.resolve_server_fd(Duration::from_secs(5));
         let mut f = wire::store(wire::SET, b"mem", &[], 0, 0, 1, 0);
         f.body_len = *announced;
+        crate::alloc::enable(true);
         let base = crate::alloc::reset_peak();
         let mut sent = f.bytes();
         let _ = c.send_chunk(&sent, Duration::from_secs(10));
@@ -211,6 +215,7 @@ pub fn c10_memory_phase(ctx: &Ctx, acc: &Accum) -> Option<i32> {
             c.rbuf.clear();
         }
         let growth = crate::alloc::peak().saturating_sub(base);
+        crate::alloc::enable(false);
         worst = worst.max(growth);
         acc.record_enum(hash_of(name), true, &["socket_memory_bound"], || json!({"scenario": name, "heap_growth_bytes": growth}));
         c.reset_close();
@@ -387,6 +392,7 @@ fn c10_socket_case(case: &StreamCase) -> CaseReport {
 }
 
 pub fn c10_socket_phase(ctx: &Ctx, acc: &Accum) -> Option<i32> {
+    let ctx = &ctx.with_shrink(40);
     let n = ctx.by(12, 300);
     if let Some(f) = explore(ctx, acc, "l3-socket-streams", "stream_socket_c10", &c10_stream_strategy, n, ctx.workers, c10_socket_case) {
         report_violation(ctx, "stream_socket_c10", &serde_json::to_value(&f.case).unwrap(), &f.fail);
